@@ -172,6 +172,7 @@ func runC01(r *core.Run) {
 	for _, cn := range []string{"all+autoid+attr+unsafe+xhtml", "all+cjk"} {
 		nbhdSub(r, "nbhd-spec/"+cn, core.MustCfg(cn), func(s *core.Sub, cv *core.Conv, w []byte) { c01Case(s, cv, w) })
 		nestSub(r, "nesting/"+cn, core.MustCfg(cn), core.Pick(r, 3, 4), func(s *core.Sub, cv *core.Conv, w []byte) { c01Case(s, cv, w) })
+		corpusSub(r, "structured-corpus/"+cn, core.MustCfg(cn), nil, func(s *core.Sub, cv *core.Conv, w []byte) { c01Case(s, cv, w) })
 		lengthSub(r, "lengths/"+cn, core.MustCfg(cn), core.Pick(r, 1100, 2200), func(s *core.Sub, cv *core.Conv, w []byte) { c01Case(s, cv, w) })
 		replSub(r, "replication/"+cn, core.MustCfg(cn), core.Pick(r, 150, 300), func(s *core.Sub, cv *core.Conv, w []byte) { c01Case(s, cv, w) })
 		if strings.Contains(cn, "attr") {
